@@ -172,6 +172,19 @@ def _history(hist):
     p = rejected_ops(h, m, env)
     if p:
         return (p, len(hist), model)
+    # names shadowed by the module's own attributes, tried on scratch replays of the same history
+
+    def scratch():
+        m2, env2 = fresh_module(h)
+        for op in hist:
+            if op[1] != "same":
+                apply_op(h, m2, env2, op)
+        return m2
+
+    if len(hist) <= 2:
+        p = shadow_probe(h, scratch)
+        if p:
+            return (p, len(hist), model)
     # export
     design = model_design(model)
     try:
@@ -207,6 +220,37 @@ def _history(hist):
     except Exception as e:
         return ("export fails after refused post-elaboration additions: " + short_exc(e), len(hist), model)
     return (None, len(hist), model)
+
+
+def shadow_probe(h, mk, is_bundle=False):
+    """Every name under which the object has a Python-level attribute, method or property (dir()), plus fresh underscore
+    names: an HDL object stored under it by setattr / add(named) / add(name=) is either refused, leaving the namespace as it
+    was, or it is the one object that get(), attribute access, the namespace and its kind view all return."""
+    names = sorted({n for n in dir(mk()) if not n.startswith("__")} | {"_x", "_fresh_private"})
+    for nm in names:
+        for how in FORMS:
+            o = mk()
+            sgn = h.Signal()
+            before = dict(o.namespace)
+            try:
+                if how == "setattr":
+                    setattr(o, nm, sgn)
+                elif how == "add_named":
+                    sgn.name = nm
+                    o.add(sgn)
+                else:
+                    o.add(sgn, name=nm)
+            except Exception:
+                if dict(o.namespace) != before:
+                    return f"refused {how} under the name {nm!r} still changed the namespace"
+                continue
+            try:
+                ga = getattr(o, nm)
+            except Exception as e:
+                ga = e
+            if not (ga is sgn and o.get(nm) is sgn and o.namespace.get(nm) is sgn and o.signals.get(nm) is sgn):
+                return f"{how} of a signal under the name {nm!r} accepted, but get() / attribute access / views do not all return it (attribute access gives {str(ga)[:40]!r})"
+    return None
 
 
 def rejected_ops(h, m, env):
@@ -344,6 +388,17 @@ def _bundle_history(hist):
             except Exception:
                 if (dict(bd.namespace), dict(bd.signals), dict(bd.bundles)) != before:
                     return (f"rejected add() under reserved name {bn!r} still changed the bundle", len(hist))
+    if len(hist) <= 1:
+        def scratch_b():
+            b2 = h.Bundle(name="SubjectB")
+            for (name, kind, form) in hist:
+                if kind != "same":
+                    setattr(b2, name, h.Signal(width=2) if kind == "sig" else h.Port(width=2) if kind == "port" else inner())
+            return b2
+
+        p = shadow_probe(h, scratch_b, True)
+        if p:
+            return (p, len(hist))
     for bad in (5, h.R(r=1), h.Module(name="X")):
         try:
             bd.q2 = bad
